@@ -105,6 +105,18 @@ def run(ctx):
     obs = snapshot_tables()
     obs["decoded"] = decoded_by_running_connection(ids)
     calls, trace = api_calls(ctx, random.Random(ctx.seed))
+    # Bluetooth operations, subscriptions and voice-assistant exchanges in progress (time-outs, follow-up requests,
+    # unsubscribe messages): whatever they write / subscribe to is subject to the same direction rule
+    from vf import sessionsim
+
+    rng = random.Random(ctx.seed + 13)
+    nsess = 150 if ctx.quick else 2000
+    for i in range(nsess):
+        sch = sessionsim.c16_random(rng, rng.randrange(3, 12)) if i % 2 == 0 else sessionsim.c17_random(rng, rng.randrange(3, 12))
+        t = sessionsim.run_schedule(dict(noise=False, login=False), sch, seed=ctx.seed + i)
+        sent = sorted({w.split(":")[0] for r in t["rows"] for w in r["w"]})
+        sub = sorted({x for r in t["rows"] for x in r.get("sub", [])})
+        calls.append({"api": f"session-history-{i}", "sent": sent, "subscribed": sub})
     obs["calls"] = calls
     f = ctx.tmp / "registry-obs.json"
     f.write_text(json.dumps(obs))
